@@ -24,6 +24,8 @@ import (
 	"encoding/json"
 	"fmt"
 	"math/rand"
+	"reflect"
+	"regexp"
 	"sort"
 	"strconv"
 	"strings"
@@ -815,6 +817,239 @@ func (w *dscWorld) observeTree(pn int) (dscTree, string, []string) {
 	return t, strings.Join(order, ";"), problems
 }
 
+// ---------------------------------------------------------------- addresses and resolution
+
+func dscIsNil(v any) bool {
+	if v == nil {
+		return true
+	}
+	rv := reflect.ValueOf(v)
+	switch rv.Kind() {
+	case reflect.Ptr, reflect.Interface, reflect.Map, reflect.Slice, reflect.Func, reflect.Chan:
+		return rv.IsNil()
+	}
+	return false
+}
+
+// dscDevTok: the device part of an address as the model interns it: absent "-", the peer's announced device
+// address "devN" the number N, anything else verbatim (never equal to a model answer)
+func dscDevTok(d *model.AddressDeviceType) string {
+	if d == nil {
+		return "-"
+	}
+	if n, err := strconv.Atoi(strings.TrimPrefix(string(*d), "dev")); err == nil && strings.HasPrefix(string(*d), "dev") {
+		return strconv.Itoa(n)
+	}
+	return "<" + string(*d) + ">"
+}
+
+func dscObsFeat(f api.FeatureRemoteInterface) dscOFeat {
+	fa := f.Address()
+	of := dscOFeat{id: -1, typ: dscFTypeNum(f.Type()), rol: dscRoleNum(f.Role()), desc: dscDescNum(f.Description()), ops: map[int]int{}}
+	if fa != nil && fa.Feature != nil {
+		of.id = int(*fa.Feature)
+	}
+	for fn, o := range f.Operations() {
+		rc, wc := 0, 0
+		if o.Read() {
+			rc = 1
+			if o.ReadPartial() {
+				rc = 2
+			}
+		}
+		if o.Write() {
+			wc = 1
+			if o.WritePartial() {
+				wc = 2
+			}
+		}
+		of.ops[dscFnNum(fn)] = rc + 3*wc
+	}
+	return of
+}
+
+func dscObsEnt(e api.EntityRemoteInterface) string {
+	var fs []string
+	for _, f := range e.Features() {
+		fs = append(fs, dscObsFeat(f).String())
+	}
+	return fmt.Sprintf("%s(%d;%s)[%s]", h.EntStr(e.Address().Entity), dscETypeNum(e.EntityType()), dscOpt(dscDescNum(e.Description())), strings.Join(fs, ","))
+}
+
+// entity addresses asked of Entity(): the generator's domain and addresses that are never announced
+var dscResolveEnts = [][]uint{{0}, {1}, {2}, {1, 1}, {1, 2}, {3}, {0, 0}, {1, 1, 1}, {2, 1}}
+
+// dscResolve reads, for peer pn, every reported address with its device part and asks Entity() / FeatureByAddress()
+// for every reported and a set of unreported addresses.
+//   - SPEC (no model): every entity in Entities() resolves through its own address to that very object, every
+//     feature of it likewise (a feature number listed twice in one entity: to a feature with that address);
+//     whatever Entity() / FeatureByAddress() return is reported; an unreported address resolves to nil.
+//   - the returned text is the canonical observation the model driver's `resolve` op answers.
+func (w *dscWorld) dscResolve(r *h.Report, done []string, pn int, evs []string) (line, impl string) {
+	p := w.peers[pn]
+	ents := p.rdev.Entities()
+	fail := func(key, format string, a ...any) {
+		r.SpecFail(key, done, fmt.Sprintf("peer %d: ", pn)+fmt.Sprintf(format, a...))
+	}
+	listedE := map[string]api.EntityRemoteInterface{}
+	listedF := map[string]api.FeatureRemoteInterface{} // "ent/id" -> first feature listed with that address
+	var aParts []string
+	var qf []string
+	for _, e := range ents {
+		ea := e.Address()
+		a := h.EntStr(ea.Entity)
+		if _, dup := listedE[a]; !dup {
+			listedE[a] = e
+		}
+		got := p.rdev.Entity(ea.Entity)
+		if dscIsNil(got) || got != listedE[a] {
+			fail("C06/reported-address-does-not-resolve", "entity %s is in Entities(), Entity(%s) returns %s", a, a, dscEntTok(got))
+		}
+		count := map[int]int{}
+		for _, f := range e.Features() {
+			if fa := f.Address(); fa != nil && fa.Feature != nil {
+				count[int(*fa.Feature)]++
+			}
+		}
+		var fparts []string
+		for _, f := range e.Features() {
+			fa := f.Address()
+			if fa == nil || fa.Feature == nil {
+				fparts = append(fparts, "nil")
+				continue
+			}
+			id := int(*fa.Feature)
+			key := fmt.Sprintf("%s/%d", h.EntStr(fa.Entity), id)
+			if _, dup := listedF[key]; !dup {
+				listedF[key] = f
+				qf = append(qf, key)
+			}
+			rf := p.rdev.FeatureByAddress(fa)
+			switch {
+			case dscIsNil(rf):
+				fail("C06/reported-address-does-not-resolve", "feature %s is reported, FeatureByAddress(its address) returns nil", key)
+			case count[id] == 1 && rf != f:
+				fail("C06/reported-address-does-not-resolve", "feature %s is reported, FeatureByAddress(its address) returns another feature (%s)", key, h.AddrS(rf.Address()))
+			case h.AddrS(rf.Address()) != h.AddrS(fa):
+				fail("C06/reported-address-does-not-resolve", "feature %s is reported, FeatureByAddress(its address) returns a feature with address %s", key, h.AddrS(rf.Address()))
+			}
+			fparts = append(fparts, fmt.Sprintf("%d@%s", id, dscDevTok(fa.Device)))
+		}
+		aParts = append(aParts, fmt.Sprintf("%s@%s{%s}", a, dscDevTok(ea.Device), strings.Join(fparts, ",")))
+	}
+	// queries: every domain / foreign entity address; features 0..4 of each plus every reported feature address
+	var qe []string
+	seenE := map[string]bool{}
+	for _, a := range dscResolveEnts {
+		qe = append(qe, h.EntU(a))
+		seenE[h.EntU(a)] = true
+	}
+	for _, e := range ents {
+		if a := h.EntStr(e.Address().Entity); !seenE[a] && a != "" {
+			qe = append(qe, a)
+			seenE[a] = true
+		}
+	}
+	seenF := map[string]bool{}
+	for _, k := range qf {
+		seenF[k] = true
+	}
+	for _, a := range qe {
+		for id := 0; id <= 4; id++ {
+			if k := fmt.Sprintf("%s/%d", a, id); !seenF[k] {
+				qf = append(qf, k)
+				seenF[k] = true
+			}
+		}
+	}
+	var reParts, rfParts []string
+	for _, a := range qe {
+		got := p.rdev.Entity(spine.NewAddressEntityType(dscAddrU(a)))
+		tok := "-"
+		if !dscIsNil(got) {
+			tok = dscObsEnt(got)
+			if want, ok := listedE[a]; !ok || got != want {
+				fail("C06/unreported-address-resolves", "Entity(%s) returns %s, Entities() does not list it at that address", a, dscEntTok(got))
+			}
+		} else if _, ok := listedE[a]; ok {
+			fail("C06/reported-address-does-not-resolve", "entity %s is in Entities(), Entity(%s) returns nil", a, a)
+		}
+		reParts = append(reParts, a+"="+tok)
+	}
+	for i, k := range qf {
+		sl := strings.LastIndex(k, "/")
+		a, ids := k[:sl], k[sl+1:]
+		id, _ := strconv.Atoi(ids)
+		if a == "" || strings.HasPrefix(k, "nil") {
+			continue
+		}
+		// the device part of the asked address is not looked at by the code: absent, the peer's, a foreign one
+		fa := &model.FeatureAddressType{Entity: spine.NewAddressEntityType(dscAddrU(a)), Feature: util.Ptr(model.AddressFeatureType(id))}
+		switch i % 3 {
+		case 1:
+			fa.Device = util.Ptr(model.AddressDeviceType(p.dev))
+		case 2:
+			fa.Device = util.Ptr(model.AddressDeviceType("elsewhere"))
+		}
+		got := p.rdev.FeatureByAddress(fa)
+		tok := "-"
+		if !dscIsNil(got) {
+			ga := got.Address()
+			tok = h.EntStr(ga.Entity) + "/" + dscObsFeat(got).String()
+			if want, ok := listedF[k]; !ok || got != want {
+				fail("C06/unreported-address-resolves", "FeatureByAddress(%s) returns %s, which no listed entity reports at that address first", k, h.AddrS(ga))
+			}
+		} else if _, ok := listedF[k]; ok {
+			fail("C06/reported-address-does-not-resolve", "feature %s is reported, FeatureByAddress(%s) returns nil", k, k)
+		}
+		rfParts = append(rfParts, k+"="+tok)
+	}
+	if dscIsNil(p.rdev.FeatureByAddress(nil)) == false {
+		fail("C06/unreported-address-resolves", "FeatureByAddress(nil) returns a feature")
+	}
+	j := func(l []string, sep string) string {
+		if len(l) == 0 {
+			return "."
+		}
+		return strings.Join(l, sep)
+	}
+	var qfAsk []string
+	for _, x := range rfParts {
+		qfAsk = append(qfAsk, x[:strings.Index(x, "=")])
+	}
+	line = fmt.Sprintf("resolve %d %s | %s", pn, strings.Join(qe, " "), strings.Join(qfAsk, " "))
+	// the SKIs the entity events of this message carried, as peer numbers ("ski1" -> 1); the SPEC monitor of the
+	// event clause has already judged them against the sender's SKI
+	kset := map[string]bool{}
+	for _, e := range evs {
+		k := e[strings.LastIndex(e, "@")+1:]
+		if n, err := strconv.Atoi(strings.TrimPrefix(k, "ski")); err == nil && strings.HasPrefix(k, "ski") {
+			k = strconv.Itoa(n)
+		}
+		kset[k] = true
+	}
+	impl = fmt.Sprintf("D %s | A %s | RE %s | RF %s | K %s", dscDevTok(p.rdev.Address()), j(aParts, ";"), j(reParts, ","), j(rfParts, ","), j(keys(kset), ","))
+	return line, impl
+}
+
+// dscResolveAgrees: equal, where "?" in the model's answer (device parts of a member whose device parts are not
+// modelled: whole=1) stands for any device part
+func dscResolveAgrees(impl, mdl string) bool {
+	if !strings.Contains(mdl, "?") {
+		return impl == mdl
+	}
+	masked := regexp.MustCompile(`@(-|[0-9]+|<[^>]*>)`).ReplaceAllString(impl, "@?")
+	masked = regexp.MustCompile(`^D \S+`).ReplaceAllString(masked, "D ?")
+	return masked == mdl
+}
+
+func dscEntTok(e api.EntityRemoteInterface) string {
+	if dscIsNil(e) {
+		return "nil"
+	}
+	return "entity " + h.EntStr(e.Address().Entity) + fmt.Sprintf(" (%p)", e)
+}
+
 type dscReg struct{ subs, binds, csubs, cbinds []string }
 
 func (r dscReg) String() string {
@@ -950,6 +1185,7 @@ func runDscHistory(r *h.Report, d *h.Driver, ops []string, st *dscStats) {
 		}
 		done = append(done, op)
 		var impl, line, kind string
+		var stepEvs []string // entity events of this step, with the SKI they carry
 		switch f[0] {
 		case "msg":
 			m, ok := dscParseMsg(op)
@@ -969,6 +1205,7 @@ func runDscHistory(r *h.Report, d *h.Driver, ops []string, st *dscStats) {
 			otherAfter, _, _ := w.observeTree(other)
 			regAfter := w.observeReg()
 			evs := w.evh.take()
+			stepEvs = evs
 			// ---- SPEC monitor (no model involved)
 			want, wantEv, specified := dscSpecApply(prev, m)
 			mixed := dscMixed(prev, m)
@@ -1111,6 +1348,20 @@ func runDscHistory(r *h.Report, d *h.Driver, ops []string, st *dscStats) {
 			if impl != want {
 				r.Mismatch(done, impl, want, "discovery op "+op)
 				return
+			}
+		}
+		if f[0] == "msg" {
+			// addresses (device part included) and Entity() / FeatureByAddress(): SPEC on the implementation's own
+			// answers, then the same observation from the model (Spine.Disc.findE / resolveF / Dev)
+			pn, _ := strconv.Atoi(f[1])
+			rline, rimpl := w.dscResolve(r, done, pn, stepEvs)
+			r.Eval("resolve", "")
+			if d != nil && line != "" {
+				want := d.Ask(rline)
+				if !dscResolveAgrees(rimpl, want) {
+					r.Mismatch(done, rimpl, want, "addresses and resolution after "+op)
+					return
+				}
 			}
 		}
 	}
